@@ -77,6 +77,13 @@ ASSUMPTIONS = [
     "its directory object reported failed) and then promises nothing; the store must stay correctly named and "
     "the others must fully succeed.  (Observation, counted not judged: as root another writer's reflink attempt "
     "truncates the inode a hard-linked object shares with its SOURCE file in the workspace.)",
+    "dimension corpus (tools/COVERAGE_AUDIT.md), every run: names, shapes, obj_name labels, hardlink x verify "
+    "(per call / store default), shallow, check_exists, jobs, callback, State shared / per writer / none, routes "
+    "build+transfer / single file / index.save / odb.add / prepare+migrate (and mixed), pre-existing right-unprotected "
+    "/ corrupt-unprotected / empty leftover (local stores only: a base store takes any existing name for the "
+    "object, that is C07/C15) / stale temps, one injected EIO / EACCES on one writer's copy (first / last / the "
+    "directory object); not meaningful here and left to C01/C03/C07: other algorithm names, corrupt PROTECTED "
+    "copies, symlinked parents, read-only stores",
     "translator unit dbadd (Gen/DbAdd.v, regenerated on every run) ties the add protocol of the model to "
     "HashFileDB.add: Proofs/ConcurrentTie.v",
     "hashing INSIDE one writer (build's thread pool for large files, imap_unordered) is C03's model (HashSched); "
@@ -285,6 +292,57 @@ def _install():
         return oids_exist
 
     LocalHashFileDB.oids_exist = wrap_exists(LocalHashFileDB.oids_exist)
+
+    # ObjectDB.add(check_exists=True) (index.save, direct add, migrate) asks exists() per id
+    orig_exists1 = ObjectDB.exists
+
+    def exists1(self, oid):
+        r = orig_exists1(self, oid)
+        s = _S
+        tid = getattr(_tl, "tid", None)
+        if r and s is not None and s.on and tid is not None and type(self).__name__ in ("LocalHashFileDB", "HashFileDB") \
+                and os.path.abspath(self.path) == s.root:
+            s.note(tid, ("exists", (oid,)))
+        return r
+
+    ObjectDB.exists = exists1
+
+    # fault injection: ONE writer's copy of ONE object fails (before anything is written)
+    import errno as _errno
+
+    from dvc_objects.fs.base import FileSystem as _FS
+    from dvc_objects.fs.local import LocalFileSystem as _LFS
+
+    def _maybe_fail(target):
+        s = _S
+        tid = getattr(_tl, "tid", None)
+        if s is None or not s.on or tid is None:
+            return
+        f = _FAULT.get(tid)
+        if not f or not isinstance(target, str) or not target.startswith(s.prefix):
+            return
+        c = classify(target[len(s.prefix):])
+        name = c[1] if c[0] == "obj" else None
+        if name is None and c[0] == "tmp":
+            # the directory object arrives under a temp name in its fan-out directory
+            name = f["oid"] if target[len(s.prefix):].split(os.sep)[0] == f["oid"][:2] and f["oid"].endswith(".dir") else None
+        if name == f["oid"]:
+            code = getattr(_errno, f.get("errno", "EIO"))
+            raise OSError(code, os.strerror(code), target)
+
+    orig_put = _LFS.put_file
+    orig_get = _FS.get_file
+
+    def put_file(self, lpath, rpath, *a, **kw):
+        _maybe_fail(rpath)
+        return orig_put(self, lpath, rpath, *a, **kw)
+
+    def get_file(self, rpath, lpath, *a, **kw):
+        _maybe_fail(lpath)
+        return orig_get(self, rpath, lpath, *a, **kw)
+
+    _LFS.put_file = put_file
+    _FS.get_file = get_file
     orig_check = LocalHashFileDB.check
 
     def check(self, oid, *a, **kw):
@@ -343,6 +401,40 @@ def manifest(wl: dict) -> dict:
     lb = json.dumps(listing, sort_keys=True).encode("utf-8")
     out[md5hex(lb) + ".dir"] = lb
     return out
+
+
+def listing_bytes(files: dict) -> bytes:
+    listing = sorted(({"md5": md5hex(b), "relpath": rel} for rel, b in files.items()), key=lambda d: d["relpath"])
+    return json.dumps(listing, sort_keys=True).encode("utf-8")
+
+
+def requested(wl: dict, opt: dict | None = None) -> dict:
+    """{oid: bytes} a writer requests, by construction route (directory object(s) last):
+    transfer (default)  build() + transfer(): the files and ONE directory object for the whole tree
+    single              build() of ONE file + transfer(): that file object
+    add                 odb.add(paths, fs, oids) directly: the file objects only
+    save                index.save(): the files and one directory object PER SUB-DIRECTORY (none for the root)
+    migrate             prepare()+migrate() of a source store that holds the transfer-manifest as objects"""
+    route = (opt or {}).get("route", "transfer")
+    files = files_of(wl)
+    if route == "single":
+        b = files["@file"]
+        return {md5hex(b): b}
+    if route == "add":
+        return {md5hex(b): b for _rel, b in sorted(files.items())}
+    if route == "save":
+        out = {md5hex(b): b for _rel, b in sorted(files.items())}
+        dirs = set()
+        for rel in wl:
+            parts = rel.strip("/").split("/")
+            upto = len(parts) if rel.endswith("/") else len(parts) - 1
+            for k in range(1, upto + 1):
+                dirs.add("/".join(parts[:k]))
+        for d in sorted(dirs):
+            lb = listing_bytes({rel[len(d) + 1:]: b for rel, b in files.items() if rel.startswith(d + "/")})
+            out[md5hex(lb) + ".dir"] = lb
+        return out
+    return manifest(wl)
 
 
 def gen_workloads(rng, n, big=False):
@@ -437,6 +529,8 @@ def gen_schedule(rng, n, length=400):
 _STATE: dict = {}
 _STATS: dict = {}
 _POOL: dict = {}
+_WL: dict = {}  # workspace path -> workload (for the routes that compute ids themselves)
+_FAULT: dict = {}  # writer id -> {"oid": ..., "errno": ...}: injected failure of that writer's copy of that object
 _RESTAGE: dict = {}  # workspace path -> {"files": {rel: new bytes of the same size}, "ns": mtime to set}
 
 
@@ -477,26 +571,73 @@ def _run_state_dir(ctx):
 
 
 
-def _writer_body(cls, store, ws, st, verify=None, hardlink=False, modify=None):
+def _writer_body(cls, store, ws, st, verify=None, hardlink=False, modify=None, opt=None):
     from dvc_objects.fs.local import localfs
 
     from dvc_data.hashfile.build import build
     from dvc_data.hashfile.transfer import transfer
 
+    opt = opt or {}
+    route = opt.get("route", "transfer")
     # verify: None | "call" (transfer(verify=True)) | "store" (the store is configured verify=True)
-    odb = impl.make_odb(cls, store, state=st, **({"verify": True} if verify == "store" else {}))
+    cfgkw = {"verify": True} if verify == "store" else {}
+    if st is not None:
+        cfgkw["state"] = st
+    odb = impl.make_odb(cls, store, **cfgkw)
     cfg = _POOL.get("cfg")
     kw = {"checksum_jobs": cfg["jobs"]} if cfg is not None else {}
-    staging, _meta, obj = build(odb, ws, localfs, "md5", **kw)
+    vkw = {"verify": True} if verify == "call" else {}
+    if route == "add":
+        # HashFileDB.add directly, files only, oids computed by the caller
+        files = files_of(_WL[ws])
+        rels = sorted(files)
+        akw = dict(vkw)
+        if "check_exists" in opt:
+            akw["check_exists"] = opt["check_exists"]
+        if hardlink:
+            akw["hardlink"] = True
+        odb.add([os.path.join(ws, *r.split("/")) for r in rels], localfs, [md5hex(files[r]) for r in rels], **akw)
+        return "add", []
+    if route == "save":
+        from dvc_data.index import ObjectStorage
+        from dvc_data.index import build as ibuild
+        from dvc_data.index import md5 as imd5
+        from dvc_data.index import save as isave
+
+        idx = imd5(ibuild(ws, localfs), **({"state": st} if st is not None else {}))
+        idx.storage_map.add_cache(ObjectStorage((), odb))
+        isave(idx, **vkw)
+        return "save", []
+    if route == "migrate":
+        from dvc_data.hashfile.db.migrate import migrate, prepare
+
+        src = impl.make_odb("local", ws + "-src")
+        migrate(prepare(src, odb))
+        return "migrate", []
+    target = os.path.join(ws, "@file") if route == "single" else ws
+    staging, _meta, obj = build(odb, target, localfs, "md5", **kw)
     if modify:
         # perturbation: the SOURCE is rewritten after it was staged (what was hashed is no longer what is there)
         for rel, data in modify.items():
             with open(os.path.join(ws, *rel.split("/")), "wb") as f:
                 f.write(data)
-    tkw = {"verify": True} if verify == "call" else {}
+    tkw = dict(vkw)
     if hardlink:
         tkw["hardlink"] = True
-    res = transfer(staging, odb, {obj.hash_info}, shallow=False, **tkw)
+    if opt.get("jobs"):
+        tkw["jobs"] = opt["jobs"]
+    if opt.get("callback"):
+        from fsspec.callbacks import Callback
+
+        tkw["callback"] = Callback()
+    hi = obj.hash_info
+    if opt.get("label"):
+        hi.obj_name = "data/" + os.path.basename(ws)  # as DVC labels what it requests
+    ids = {hi}
+    if opt.get("shallow"):
+        # as DVC calls it: the directory AND its files are requested, directories are not expanded
+        ids |= {h for _, _, h in obj}
+    res = transfer(staging, odb, ids, shallow=bool(opt.get("shallow")), **tkw)
     failed = sorted(h.value for h in res.failed)
     rs = _RESTAGE.get(ws)
     if rs:
@@ -513,11 +654,11 @@ def _writer_body(cls, store, ws, st, verify=None, hardlink=False, modify=None):
     return obj.oid, failed
 
 
-def _thread_main(s: Sched, tid, cls, store, ws, st, results, verify=None, hardlink=False, modify=None):
+def _thread_main(s: Sched, tid, cls, store, ws, st, results, verify=None, hardlink=False, modify=None, opt=None):
     _tl.tid = tid
     try:
         s.at_event(tid, ("sync", "start"))
-        results[tid] = ("ok",) + _writer_body(cls, store, ws, st, verify, hardlink, modify)
+        results[tid] = ("ok",) + _writer_body(cls, store, ws, st, verify, hardlink, modify, opt)
     except Abort:
         results[tid] = ("abort",)
     except BaseException as exc:  # noqa: BLE001
@@ -528,7 +669,8 @@ def _thread_main(s: Sched, tid, cls, store, ws, st, results, verify=None, hardli
 
 
 def run_threads(ctx, cls, wkls, schedule, prepop=None, free=False, shared_state=True, _root=None, pool=None,
-                verify=None, restage=None, hardlink=None, modify=None):
+                verify=None, restage=None, hardlink=None, modify=None, wopts=None, state_mode=None, pre_raw=None,
+                pre_temps=None):
     """returns dict(trace, grants, results, store, rows, leftovers, root).
     hardlink[i]: writer i transfers with hardlink=True; modify[i]: {rel: bytes} rewritten between build and transfer"""
     global _S
@@ -538,8 +680,26 @@ def run_threads(ctx, cls, wkls, schedule, prepop=None, free=False, shared_state=
     root = _root or ctx.fresh("c16")
     store = os.path.join(root, "store")
     n = len(wkls)
+    _WL.clear()
+    _FAULT.clear()
     for i, wl in enumerate(wkls):
-        mk_ws(os.path.join(root, f"w{i}"), wl)
+        ws = os.path.join(root, f"w{i}")
+        mk_ws(ws, wl)
+        _WL[ws] = wl
+        o = (wopts or [None] * n)[i] or {}
+        if o.get("route") == "migrate":
+            # the writer's source store: the objects of its tree (files and directory object), protected
+            for oid, data in manifest(wl).items():
+                impl.plant(ws + "-src", oid, data, mode=0o444)
+        if o.get("fault"):
+            _FAULT[i] = o["fault"]
+    for oid, (data, mode) in (pre_raw or {}).items():
+        impl.plant(store, oid, data, mode=mode)
+    for rel in pre_temps or []:
+        p = os.path.join(store, *rel.split("/"))
+        os.makedirs(os.path.dirname(p), exist_ok=True)
+        with open(p, "wb") as f:
+            f.write(b"partial copy left by somebody who died")
     _RESTAGE.clear()
     if restage:
         # restage[i] = second version of writer i's tree (same names, same sizes).  Explicit clock: first
@@ -556,7 +716,10 @@ def run_threads(ctx, cls, wkls, schedule, prepop=None, free=False, shared_state=
     if prepop:
         for oid, data in prepop.items():
             impl.plant(store, oid, data, mode=0o444 if cls == "local" else None)
-    if shared_state:
+    if state_mode == "noop":
+        st_dir = os.path.join(root, "st")
+        states = [None]
+    elif shared_state and state_mode != "per-writer":
         # ONE State object for all writers of the trial; it is kept for the whole harness run (diskcache
         # initialisation costs 0.1 s) - the rows are keyed by absolute path, every trial has its own root
         st_dir = _run_state_dir(ctx)
@@ -573,7 +736,7 @@ def run_threads(ctx, cls, wkls, schedule, prepop=None, free=False, shared_state=
     ths = [threading.Thread(target=_thread_main, daemon=True,
                             args=(s, i, cls, store, os.path.join(root, f"w{i}"), states[i % len(states)], results,
                                   (verify or [None] * n)[i], (hardlink or [False] * n)[i],
-                                  (modify or [None] * n)[i]))
+                                  (modify or [None] * n)[i], (wopts or [None] * n)[i]))
            for i in range(n)]
     _S = s
     if pool:
@@ -600,7 +763,8 @@ def run_threads(ctx, cls, wkls, schedule, prepop=None, free=False, shared_state=
         _S = None
         _POOL.pop("cfg", None)
         _RESTAGE.clear()
-    if not shared_state:
+        _FAULT.clear()
+    if state_mode == "per-writer" or (not shared_state and state_mode != "noop"):
         for x in states:
             x.close()
     return {"trace": s.log, "grants": s.grants, "results": results, "root": root, "store": store,
@@ -672,7 +836,8 @@ def audit_rows(st_dir, store):
     return out, integrity
 
 
-def judge(cls, wkls, run, prepop=None, earlier=None, modify=None):
+def judge(cls, wkls, run, prepop=None, earlier=None, modify=None, mans=None, faults=None, pre_temps=None,
+          state_mode=None, routes=None):
     """oracle: the property on the real outcome.  returns [(signature, what)].
     earlier[i] = an earlier version of writer i's tree that it staged too (its objects are requested as well)"""
     problems = []
@@ -690,6 +855,14 @@ def judge(cls, wkls, run, prepop=None, earlier=None, modify=None):
             allowed = {md5hex(wkls[i][rel]) for rel in m} | {list(man)[-1]}
             if set(r[2]) <= allowed:
                 refused.add(i)
+    # a writer with an injected failure of one copy may be refused as well (that id and its directory object)
+    for i, f in (faults or {}).items():
+        r = run["results"].get(i)
+        man = mans[i] if mans else manifest(wkls[i])
+        if r and r[0] == "ok" and r[2] and set(r[2]) <= {f["oid"], list(man)[-1]}:
+            refused.add(i)
+        elif r and r[0] == "exc" and r[1] in ("OSError", "PermissionError") and (routes or {}).get(i) in ("add", "save", "migrate"):
+            refused.add(i)  # these routes have no on_error: the injected error propagates to the caller
     for i in range(n):
         r = run["results"].get(i)
         if i in refused:
@@ -702,10 +875,10 @@ def judge(cls, wkls, run, prepop=None, earlier=None, modify=None):
     objs, leftovers = audit_store(run["store"])
     want = dict(prepop or {})
     for i, wl in enumerate(wkls):
-        man = manifest(wl)
+        man = dict(mans[i]) if mans else manifest(wl)
         doid = list(man)[-1]
         r = run["results"].get(i)
-        if r and r[0] == "ok" and r[1] != doid:
+        if r and r[0] == "ok" and r[1] != doid and (routes or {}).get(i, "transfer") in ("transfer", "single"):
             problems.append(("C16:directory-id", f"writer {i} staged {r[1]}, its tree is {doid}"))
         if earlier:
             man = {**manifest(earlier[i]), **man}
@@ -727,9 +900,12 @@ def judge(cls, wkls, run, prepop=None, earlier=None, modify=None):
             problems.append(("C16:unrequested-object", f"{oid} was requested by nobody"))
         if cls == "local" and mode != 0o444:
             problems.append(("C16:object-unprotected", f"{oid} has mode {oct(mode)}"))
+    leftovers = [x for x in leftovers if x not in set(pre_temps or [])]
     if leftovers:
         problems.append(("C16:leftover-temp", f"left in the store: {leftovers[:4]}"))
     rows, integrity = audit_rows(run["st_dir"], run["store"])
+    if state_mode == "noop" and integrity == "missing":
+        integrity = "ok"
     if integrity != "ok":
         problems.append(("C16:state-db-corrupt", f"PRAGMA integrity_check = {integrity}"))
     for oid, (entry, live) in rows.items():
@@ -748,7 +924,7 @@ def judge(cls, wkls, run, prepop=None, earlier=None, modify=None):
 # abstraction of the raw trace into model steps
 
 
-def abstract(cls, wkls, raw, modify=None):
+def abstract(cls, wkls, raw, modify=None, mans=None):
     """-> (steps [(tid, ('Step', args...))], notes).  Unknown events become ('Unknown', text) which the
     caller reports (the model has no such step)."""
     steps = []
@@ -833,8 +1009,11 @@ def abstract(cls, wkls, raw, modify=None):
             src = e[2][len("<outside>"):] if isinstance(e[2], str) and e[2].startswith("<outside>") else None
             content = None
             if b[0] == "obj" and src:
+                ms = re.search(r"/w(\d+)-src/(..)/([^/]+)$", src)
+                if ms and int(ms.group(1)) == tid and mans:
+                    content = mans[tid].get(ms.group(2) + ms.group(3))
                 m = re.search(r"/w(\d+)/(.*)$", src)
-                if m and int(m.group(1)) == tid:
+                if content is None and m and int(m.group(1)) == tid:
                     rel = m.group(2).replace(os.sep, "/")
                     wl = files_of(wkls[tid])
                     if rel in wl:
@@ -935,12 +1114,12 @@ def step_term(nm: Names, st):
     raise ValueError(st)
 
 
-def vcase_term(cls, wkls, steps, objs, rows, leftovers, failed, prepop=None):
+def vcase_term(cls, wkls, steps, objs, rows, leftovers, failed, prepop=None, mans=None):
     """(vsim_in, expected val): the extended machine with the verification step; failed = {(writer, file id)}"""
     nm = Names()
     wls = []
-    for wl in wkls:
-        man = manifest(wl)
+    for wi, wl in enumerate(wkls):
+        man = mans[wi] if mans else manifest(wl)
         wls.append("[" + "; ".join(f"({nm.ref(o)}, {nm.content(b)})" for o, b in man.items()) + "]")
     pre = "[" + "; ".join(f"({nm.ref(o)}, {nm.content(b)})" for o, b in (prepop or {}).items()) + "]"
 
@@ -962,12 +1141,12 @@ def vcase_term(cls, wkls, steps, objs, rows, leftovers, failed, prepop=None):
     return nm.wrap(f"(({loc}, [{'; '.join(wls)}], {pre}, {tr}), {exp})")
 
 
-def case_term(cls, wkls, steps, objs, rows, leftovers, prepop=None):
+def case_term(cls, wkls, steps, objs, rows, leftovers, prepop=None, mans=None):
     """(check_in_pre, expected val) as one let-wrapped Coq term"""
     nm = Names()
     wls = []
-    for wl in wkls:
-        man = manifest(wl)
+    for wi, wl in enumerate(wkls):
+        man = mans[wi] if mans else manifest(wl)
         wls.append("[" + "; ".join(f"({nm.ref(o)}, {nm.content(b)})" for o, b in man.items()) + "]")
     pre = "[" + "; ".join(f"({nm.ref(o)}, {nm.content(b)})" for o, b in (prepop or {}).items()) + "]"
     tr = "[" + ";\n  ".join(f"({tid}%nat, {step_term(nm, s)})" for tid, s in steps) + "]"
@@ -1035,11 +1214,25 @@ def overlap(wkls):
 
 
 def scheduled_case(ctx, cls, wkls, schedule, style="given", prepop=None, pool=None, verify=None, hardlink=None,
-                   modify=None):
+                   modify=None, wopts=None, state_mode=None, pre_raw=None, pre_temps=None, dims=None):
+    """one run under the cooperative scheduler + audit + abstraction.
+    wopts[i]: {"route","shallow","label","jobs","callback","check_exists","fault"}; state_mode: None (one shared
+    State) | "per-writer" | "noop"; pre_raw: {oid: (bytes, mode)} planted as they are; pre_temps: stale temp files"""
+    n = len(wkls)
+    wopts = wopts or [None] * n
+    mans = [requested(wl, wopts[i]) for i, wl in enumerate(wkls)]
+    faults = {i: o["fault"] for i, o in enumerate(wopts) if o and o.get("fault")}
+    routes = {i: (o or {}).get("route", "transfer") for i, o in enumerate(wopts)}
     run = run_threads(ctx, cls, wkls, schedule, prepop=prepop, pool=pool, verify=verify, hardlink=hardlink,
-                      modify=modify)
-    problems, objs, leftovers, rows = judge(cls, wkls, run, prepop, modify=modify)
-    steps, unknown = abstract(cls, wkls, run["trace"], modify)
+                      modify=modify, wopts=wopts, state_mode=state_mode, pre_raw=pre_raw, pre_temps=pre_temps)
+    good_pre = {o: b for o, (b, _m) in (pre_raw or {}).items() if md5hex(b) == o.split(".")[0]}
+    problems, objs, leftovers, rows = judge(cls, wkls, run, {**(prepop or {}), **good_pre} or None, modify=modify,
+                                            mans=mans, faults=faults, pre_temps=pre_temps, state_mode=state_mode,
+                                            routes=routes)
+    steps, unknown = abstract(cls, wkls, run["trace"], modify, mans)
+    # directories that exist before the race starts (those of stale temp files) are part of the initial world
+    pre_dirs = sorted({rel.split("/")[0] for rel in (pre_temps or [])})
+    steps = [(0, ("Mkdir", ""))] * bool(pre_dirs) + [(0, ("Mkdir", d)) for d in pre_dirs] + steps
     gh = hashlib.sha1(bytes(run["grants"])).hexdigest()
     case = {"cls": cls, "workloads": hexwl(wkls), "schedule": run["grants"], "style": style}
     if prepop:
@@ -1063,8 +1256,125 @@ def scheduled_case(ctx, cls, wkls, schedule, style="given", prepop=None, pool=No
                         pass
     if modify and any(modify):
         case["modify"] = [None if not m else {k: v.hex() for k, v in m.items()} for m in modify]
+    if any(wopts):
+        case["wopts"] = wopts
+    if state_mode:
+        case["state_mode"] = state_mode
+    if pre_raw:
+        case["pre_raw"] = {o: [b.hex(), m] for o, (b, m) in pre_raw.items()}
+    if pre_temps:
+        case["pre_temps"] = pre_temps
+    if dims:
+        case["dims"] = dims
+    leftovers = [x for x in leftovers if x not in set(pre_temps or [])]
     impl.rm_rf(run["root"])
     return case, run, problems, steps, unknown, objs, leftovers, rows, gh
+
+
+# ----------------------------------------------------------------------------------------------
+# dimension corpus (tools/COVERAGE_AUDIT.md): fixed cases that reach, in EVERY run, the input dimensions
+# on which seeded changes keep slipping through; schedules are seeded
+
+
+NAMES_TREE = {
+    "we\\ird.txt": b"shared", "with space.txt": b"also", ".hidden": b"shared",
+    "\u043a\u0438\u0440\u0438\u043b\u043b\u0438\u0446\u0430.txt": b"cyr", "\u6f22\u5b57.txt": b"cjk",
+    "emoji-\U0001F600.bin": b"emo",
+    "cafe\u0301.txt": b"nfd", "caf\u00e9.txt": b"nfc",          # decomposed next to its composed twin
+    "data.dir": b"a FILE whose name ends in .dir",
+    "imgs/a": b"shared", "imgs_raw/a": b"raw", "imgs.bak/a": b"also",   # one name a prefix of the other
+    "x": b"x", "L" * 200: b"long name",
+    "Case/f": b"dir Case", "case": b"file case",
+}
+
+
+def dimension_cases(rng):
+    """[(dims, kwargs for scheduled_case)]"""
+    S, A, Z = b"shared", b"also", b""
+    out = []
+
+    def sch(n, length=None):
+        return gen_schedule(rng, n, length or 80 * n + 120)[1]
+
+    def add(dims, cls, wkls, **kw):
+        kw.setdefault("schedule", sch(len(wkls)))
+        out.append((dims, dict(cls=cls, wkls=wkls, **kw)))
+
+    # -- names
+    part = {k: v for k, v in NAMES_TREE.items() if k in ("we\\ird.txt", "caf\u00e9.txt", "imgs/a", "case", "Case/f")}
+    names_dims = ["names:backslash", "names:space", "names:leading-dot", "names:cyrillic", "names:cjk", "names:emoji",
+                  "names:nfd-next-to-nfc", "names:file-ending-in-.dir", "names:prefix-siblings", "names:1-char",
+                  "names:200-chars", "names:case-differing-file-and-dir"]
+    add(names_dims + ["overlap:identical-trees", "overlap:partial"], "local", [dict(NAMES_TREE), dict(NAMES_TREE), part])
+    add(names_dims + ["route:index.save"], "base", [dict(NAMES_TREE), part], wopts=[{"route": "save"}, {"route": "save"}])
+    # -- shapes
+    deep = {"p/q/r/f": b"deep", "p/q/s/": Z, "p/q/r/g": S}
+    add(["shape:depth>=3-intermediate-only-subdirs", "shape:only-empty-subdirs", "shape:empty-directory"], "local",
+        [deep, {"d/": Z, "e/f/": Z}, {}, {"p/q/r/f": b"deep"}])
+    add(["shape:identical-content-in-one-dir-and-across-dirs", "shape:one-file"], "base",
+        [{"a": S, "b": S, "d/a": S, "d/b": A}, {"only": S}, {"x/y": A, "x/z": A}])
+    add(["shape:zero-length-file", "flag:hardlink", "shape:zero-length-file-hardlinked"], "local",
+        [{"z": Z, "a": S}, {"e/z": Z}, {"z": Z}], hardlink=[True, True, False])
+    add(["shape:single-file-target", "route:single-file"], "local",
+        [{"@file": S}, {"a": S, "b": A}, {"@file": A}], wopts=[{"route": "single"}, None, {"route": "single"}])
+    # -- identifiers
+    add(["id:obj_name-label", "id:empty-listing"], "local", [{"a": S}, {"a": S, "b": A}, {}],
+        wopts=[{"label": True}, {"label": True}, {"label": True}])
+    # -- flags
+    t = {"a": S, "b": A, "d/c": S}
+    if VERIFY_STREAM:
+        add(["flag:hardlink-x-verify-matrix", "flag:verify-per-call", "flag:verify-store-default"], "local",
+            [dict(t), dict(t), dict(t), dict(t)], hardlink=[False, True, False, True], verify=[None, None, "call", "call"])
+        add(["flag:verify-store-default", "flag:hardlink-x-verify-matrix"], "base", [dict(t), {"a": S}, {"b": A, "q": b"q"}],
+            hardlink=[True, False, True], verify=["store", "call", None])
+    add(["flag:shallow"], "local", [dict(t), dict(t), {"a": S, "n": b"n"}],
+        wopts=[{"shallow": True}, None, {"shallow": True}])
+    add(["flag:shallow"], "base", [dict(t), {"b": A}], wopts=[{"shallow": True}, {"shallow": True}])
+    add(["flag:jobs", "flag:callback-non-default"], "local", [dict(t), dict(t), {"a": S}],
+        wopts=[{"jobs": 1}, {"jobs": 4, "callback": True}, {"callback": True}])
+    add(["state:per-writer"], "local", [dict(t), {"a": S, "u": b"u"}], state_mode="per-writer")
+    add(["state:noop"], "local", [dict(t), {"a": S, "u": b"u"}, dict(t)], state_mode="noop")
+    add(["state:noop"], "base", [dict(t), {"b": A}], state_mode="noop")
+    # -- construction routes
+    nested = {"a": S, "d/c": A, "d/e/f": S, "g/": Z}
+    add(["route:index.save"], "local", [dict(nested), dict(nested), {"d/c": A, "k/m": S}],
+        wopts=[{"route": "save"}] * 3)
+    add(["route:odb.add", "flag:check_exists"], "local", [dict(t), dict(t), {"a": S, "w": b"w"}],
+        wopts=[{"route": "add", "check_exists": True}, {"route": "add", "check_exists": False}, {"route": "add"}],
+        hardlink=[False, True, False])
+    add(["route:migrate"], "local", [dict(t), {"a": S, "m": b"m"}, dict(t)], wopts=[{"route": "migrate"}] * 3)
+    add(["route:mixed"], "local", [dict(nested), dict(nested), {"a": S, "d/c": A}, {"a": S}],
+        wopts=[None, {"route": "save"}, {"route": "add"}, {"route": "migrate"}])
+    add(["route:mixed"], "base", [dict(nested), {"a": S, "d/c": A}, dict(nested)],
+        wopts=[{"route": "save"}, {"route": "add", "check_exists": False}, None])
+    # -- pre-existing store states (local: the existence query re-hashes what is not protected)
+    x, y = md5hex(S), md5hex(A)
+    add(["pre:right-object-unprotected"], "local", [dict(t), {"a": S}], pre_raw={x: (S, 0o644)})
+    add(["pre:corrupt-unprotected"], "local", [dict(t), {"a": S}, {"b": A}], pre_raw={x: (b"garbage", 0o644)})
+    add(["pre:empty-leftover"], "local", [dict(t), {"a": S}], pre_raw={x: (b"", 0o644), y: (b"", 0o644)})
+    add(["pre:temp-leftovers"], "local", [dict(t), {"a": S}],
+        pre_temps=[x[:2] + "/.stale1.tmp", y[:2] + "/" + y[2:] + ".dir.stale2.tmp"])
+    add(["pre:temp-leftovers"], "base", [dict(t), {"a": S}], pre_temps=[x[:2] + "/.stale1.tmp"])
+    add(["pre:right-object-protected"], "local", [dict(t), {"a": S}], prepop={x: S})
+    # -- one injected fault on one writer's copy while the others race: the others fully succeed
+    ft = {"a": S, "b": A, "c": b"third"}
+    oids = sorted(md5hex(b) for b in ft.values())
+    add(["fault:EIO-first-of-batch"], "local", [dict(ft), dict(ft), {"a": S}],
+        wopts=[{"fault": {"oid": oids[0], "errno": "EIO"}}, None, None])
+    add(["fault:EACCES-last-of-batch"], "base", [dict(ft), dict(ft), {"c": b"third"}],
+        wopts=[{"fault": {"oid": oids[-1], "errno": "EACCES"}}, None, None])
+    add(["fault:EIO-on-directory-object"], "local", [dict(ft), {"a": S, "b": A}, dict(ft)],
+        wopts=[{"fault": {"oid": list(manifest(ft))[-1], "errno": "EIO"}}, None, None])
+    # the failing writer's reflink attempt destroys the complete object of the other writer before its copy fails
+    add(["fault:probe-then-copy-fails"], "base", [{"a": S}, {"a": S}],
+        wopts=[{"fault": {"oid": x, "errno": "EIO"}}, None], schedule=[int(c) for c in "001111111111100001111111"])
+    add(["fault:probe-then-copy-fails"], "local", [{"a": S}, {"a": S}],
+        wopts=[{"fault": {"oid": x, "errno": "EIO"}}, None],
+        schedule=[int(c) for c in "00011111111111111100001111111111"])
+    # -- overlap
+    add(["overlap:none"], "local", [{"a": b"one"}, {"a": b"two"}, {"a": b"three", "b": b"four"}])
+    add(["overlap:identical-trees", "writers:4"], "base", [dict(t)] * 4)
+    return out
 
 
 def run(ctx):
@@ -1089,6 +1399,12 @@ def run(ctx):
     for cls, wkls, schedule in corpus:
         out = scheduled_case(ctx, cls, wkls, schedule, "corpus")
         _register(ctx, out, cases, seen_sched, unknown_total)
+    for _rep in range(ctx.n(1, 6)):  # thorough: every dimension case under six seeded schedules
+        for dims, kw in dimension_cases(rng):
+            cls_, wk_ = kw.pop("cls"), kw.pop("wkls")
+            sc_ = kw.pop("schedule")
+            out = scheduled_case(ctx, cls_, wk_, sc_, "dimension", dims=dims, **kw)
+            _register(ctx, out, cases, seen_sched, unknown_total)
     if VERIFY_STREAM:
         # minimal reproduction, both classes: writer 0 verifies; writer 1 decided "new" before; writer 0 places the
         # object; writer 1's probe truncates it; writer 0's post-add verification reads it
@@ -1191,6 +1507,12 @@ def run(ctx):
     stress(ctx)
     t3 = time.time()
     nonroot(ctx)
+    dims = dict(_STATS.get("dims", {}))
+    for k, v in ctx.dist.items():
+        if k.startswith(("class:", "writers:", "pool-hashing", "empty-directory", "verify:", "hardlink", "restage",
+                         "prepopulated", "source-modified", "nonroot:", "stress:")):
+            dims["stream:" + k] = v
+    ctx.extra["input_dimensions"] = dict(sorted(dims.items()))
     ctx.extra["wall_breakdown_s"] = {"scheduled_trials": round(t_trials, 1), "coq": round(t2 - t1, 1),
                                      "stress": round(t3 - t2, 1), "nonroot": round(time.time() - t3, 1)}
     ctx.obligation("oracle:manifests", not any(v.kind == "oracle" for v in ctx.violations),
@@ -1198,6 +1520,30 @@ def run(ctx):
 
 
 LOST_SIG = "C16:root:verify-drop-removes-recreated-object"
+PROBE_FAULT_SIG = "C16:failed-writer-probe-removed-another-writers-object"
+
+
+def classify_fault(steps, faults):
+    """{oid}: a complete object placed by ANOTHER writer was truncated / unlinked by the reflink probe of a writer
+    whose own copy of that object then failed (the injected fault), so nobody re-created it"""
+    full_by, out = {}, set()
+    for tid, st in steps:
+        k = st[0]
+        if k == "Rename":
+            full_by[st[2]] = tid
+            out.discard(st[2])
+        elif k == "Link" and st[1] not in full_by:
+            full_by[st[1]] = tid
+            out.discard(st[1])
+        elif k in ("ProbeOpen", "ProbeUnlink"):
+            o = st[1]
+            if o in full_by and full_by[o] != tid and tid in faults and faults[tid]["oid"] == o:
+                out.add(o)
+            full_by.pop(o, None)
+        elif k in ("Remove", "VerifyDrop"):
+            full_by.pop(st[1], None)
+    return out
+
 
 
 def classify_verify(steps):
@@ -1248,6 +1594,24 @@ def report_problems(ctx, case, problems, steps, results, free=False):
     anything else keeps its own signature."""
     if not problems:
         return
+    faults = {i: o["fault"] for i, o in enumerate(case.get("wopts") or []) if o and o.get("fault")}
+    if faults:
+        destroyed = classify_fault(steps, faults)
+        rest = []
+        for sig, what in problems:
+            m = _ABSENT.search(what)
+            if sig == "C16:requested-object-absent" and m and m.group(2) in destroyed:
+                ctx.count("fault:failed-prober-removed-another-writers-object")
+                ctx.oracle_fail(
+                    PROBE_FAULT_SIG,
+                    "one writer's copy of an object fails (injected EIO / EACCES) AFTER its reflink attempt (dvc_objects: "
+                    "open(final name, O_TRUNC) + unlink) has truncated / unlinked the complete object another writer "
+                    f"placed; nobody re-creates it, the other writer reported success: {what}", case)
+            else:
+                rest.append((sig, what))
+        problems = rest
+        if not problems:
+            return
     if not case.get("verify"):
         for sig, what in problems:
             ctx.oracle_fail(sig, what, case)
@@ -1316,6 +1680,7 @@ def _register(ctx, out, cases, seen_sched, unknown_total):
         ctx.count("pool-hashing:scheduled")
     if any(not files_of(wl) for wl in wkls):
         ctx.count("empty-directory-writers:scheduled")
+    wopts = case.get("wopts") or [None] * len(wkls)
     # how often the interesting races were actually driven (replayed on the abstract steps)
     present, protected, linked = set(), set(), set()
     for tid, s in steps:
@@ -1349,29 +1714,56 @@ def _register(ctx, out, cases, seen_sched, unknown_total):
     for e in run_["trace"]:
         if e[1] == "state" and e[2] == "many":
             per_writer[e[0]] = per_writer.get(e[0], 0) + 1
-    if any(v > 2 for v in per_writer.values()):
+    def n_adds(i):
+        o = wopts[i] if i < len(wopts) and wopts[i] else {}
+        r = o.get("route", "transfer")
+        if r == "save":  # the files, then one add per sub-directory
+            return len([k for k in requested(wkls[i], o) if k.endswith(".dir")]) + 1
+        return {"transfer": 2, "single": 1, "add": 1, "migrate": 1}[r]
+
+    if any(v > n_adds(w) for w, v in per_writer.items()):
         _STATS["multi_txn"] = _STATS.get("multi_txn", 0) + 1
         _STATS.setdefault("multi_txn_case", case)
     report_problems(ctx, case, problems, steps, run_["results"])
     unknown_total.extend(unknown)
     term = None
     prepop = {k: bytes.fromhex(v) for k, v in case.get("prepop", {}).items()}
+    wopts = case.get("wopts") or [None] * len(wkls)
+    mans = [requested(wl, wopts[i]) for i, wl in enumerate(wkls)]
+    injected = {(i, o["fault"]["oid"]) for i, o in enumerate(wopts) if o and o.get("fault")}
+    for d in case.get("dims", []):
+        _STATS.setdefault("dims", {})
+        _STATS["dims"][d] = _STATS["dims"].get(d, 0) + 1
+    corrupt_pre = False
+    for o, (hx, _m) in case.get("pre_raw", {}).items():
+        b = bytes.fromhex(hx)
+        if md5hex(b) == o.split(".")[0]:
+            prepop[o] = b
+        else:
+            corrupt_pre = True
+    if corrupt_pre:
+        # a store that starts with a mismatching / empty leftover is not a state of the model (its initial
+        # objects are complete): judged by the oracle only
+        ctx.count("not-in-coq:corrupt-pre-existing-object")
+        cases.append((case, None, "n"))
+        return
+    uses_link = any(st[0] == "Link" for _t, st in steps)
     if "hardlink" in case:
         ctx.count("hardlink:scheduled")
     if "modify" in case:
         ctx.count("source-modified-after-staging:scheduled")
-    if "verify" in case or "hardlink" in case:
+    if "verify" in case or "hardlink" in case or injected or uses_link:
         ctx.count("verify:scheduled" if "verify" in case else "hardlink-only:scheduled")
         ctx.count("step:VerifyBad", sum(1 for _t, st in steps if st[0] == "VerifyBad"))
         ctx.count("step:VerifyDrop", sum(1 for _t, st in steps if st[0] == "VerifyDrop"))
         if not unknown:
             failed = {(int(i), o) for i, r in run_["results"].items() if r and r[0] == "ok"
-                      for o in r[2] if not o.endswith(".dir")}
-            term = vcase_term(case["cls"], wkls, steps, objs, rows, leftovers, failed, prepop)
+                      for o in r[2] if not o.endswith(".dir")} - injected
+            term = vcase_term(case["cls"], wkls, steps, objs, rows, leftovers, failed, prepop, mans)
         cases.append((case, term, "v"))
         return
     if not unknown:
-        term = case_term(case["cls"], wkls, steps, objs, rows, leftovers, prepop)
+        term = case_term(case["cls"], wkls, steps, objs, rows, leftovers, prepop, mans)
     cases.append((case, term, "n"))
 
 
@@ -1523,9 +1915,11 @@ def replay_case(ctx, case):
         modify = case.get("modify")
         if modify:
             modify = [None if not m else {k: bytes.fromhex(v) for k, v in m.items()} for m in modify]
-        run_ = run_threads(ctx, cls, wkls, case.get("schedule", []), prepop=prepop, pool=case.get("pool"),
-                           verify=case.get("verify"), hardlink=case.get("hardlink"), modify=modify)
-        problems, objs, leftovers, rows = judge(cls, wkls, run_, prepop, modify=modify)
+        pre_raw = {o: (bytes.fromhex(hx), m) for o, (hx, m) in case.get("pre_raw", {}).items()} or None
+        out = scheduled_case(ctx, cls, wkls, case.get("schedule", []), "replay", prepop, case.get("pool"),
+                             case.get("verify"), case.get("hardlink"), modify, case.get("wopts"),
+                             case.get("state_mode"), pre_raw, case.get("pre_temps"))
+        _c, run_, problems, _s, _u, objs, leftovers, rows, _g = out
         return {"results": {str(k): v for k, v in run_["results"].items()}, "problems": problems,
                 "store": {o: (len(b), oct(m)) for o, (b, m) in objs.items()}, "leftovers": leftovers,
                 "grants": run_["grants"], "violates": bool(problems)}
